@@ -83,6 +83,31 @@ MUTANTS = [
     ("int-key-pending-although-disabled", L + "machine/raw/mod.rs", "        if self.bus.is_key_edge_int_enabled() {\n            trace!(\"Key edge interrupt triggered successfully.\");", "        if self.bus.is_key_edge_int_enabled() || self.register.get(RegisterNumber::R0) == &0x42 {\n            trace!(\"Key edge interrupt triggered successfully.\");", ["C04"]),
     ("int-sampled-by-ei", L + "machine/microprogram_ram_content.rs", "0b0000001100001000100010000100), // 000000100 | (EI)", "0b0011001110001000100010000100), // 000000100 | (EI)", ["C04"]),
     ("int-cpu-reset-keeps-pending-in-run", L + "machine/raw/mod.rs", "        if machine.signals().interrupt_logic_1() {", "        if machine.signals().interrupt_logic_1() && machine.register.get(RegisterNumber::R5) != &0xEB {", ["C04"]),
+    # ---- assembler (C02)
+    ("asm-two-regs-no-shift", L + "compiler.rs", "    let src = reg_to_u8(src) << 2;\n    vec![ByteOrLabel::Byte(base + src + dst)]", "    let src = reg_to_u8(src) << 2;\n    vec![ByteOrLabel::Byte(base + if base == 0b1101_0000 { src >> 2 } else { src } + dst)]", ["C02"]),
+    ("asm-dw-little-endian", L + "compiler.rs", "                        ByteOrLabel::Byte((word >> 8) as u8),\n                        ByteOrLabel::Byte(word as u8),", "                        ByteOrLabel::Byte(word as u8),\n                        ByteOrLabel::Byte((word >> 8) as u8),", ["C02"]),
+    ("asm-jr-offset-from-own-address", L + "compiler.rs", "            let (pre_jump, _) = curr_addr.overflowing_add(2);", "            let (pre_jump, _) = curr_addr.overflowing_add(if cond == 0b111 { 1 } else { 2 });", ["C02"]),
+    ("asm-byte-counted-twice-again", L + "compiler.rs", "            AsmByte(nr) => {\n                let mut ret = vec![];", "            AsmByte(nr) => {\n                if nr == 7 { self.next_addr += nr; }\n                let mut ret = vec![];", ["C02"]),
+    ("asm-label-case-sensitive-again", L + "compiler.rs", "                            .get(&label.to_lowercase())\n                            .expect(\"infallible. Labels must be defined\")],", "                            .get(&label)\n                            .expect(\"infallible. Labels must be defined\")],", ["C02", "C06"]),
+    ("asm-equ-overwrites-stacksize", L + "compiler.rs", "                self.known_labels.insert(label.to_lowercase(), constant);\n                vec![]", "                self.known_labels.insert(label.to_lowercase(), constant);\n                if constant == 64 { self.stacksize = Stacksize::_64; }\n                vec![]", ["C02"]),
+    ("asm-dec-mode-bits-swapped", L + "compiler.rs", "                let first = 0b0101_0000 + (source_addr_mode(&src) << 2) + source_register(&src);", "                let first = 0b0101_0000 + (source_register(&src) << 2) + source_addr_mode(&src);", ["C02"]),
+    # ---- parser (C03)
+    ("parse-sub-operands-swapped", L + "parser/implementation/mod.rs", "    Instruction::Sub(reg1, reg2)", "    Instruction::Sub(reg2, reg1)", ["C03", "C16"]),
+    ("parse-label-limit-41", L + "parser/implementation/mod.rs", "    if labels.len() > 40 {", "    if labels.len() > 41 {", ["C03"]),
+    ("parse-undefined-case-sensitive", L + "parser/implementation/mod.rs", "            .filter(|label| !labels.contains(&label.to_lowercase()))", "            .filter(|label| !labels.contains(&label.to_string()))", ["C03"]),
+    ("parse-dec-256-accepted", L + "syntax/../syntax/mrasm.pest" if False else "emulator-2a-lib/syntax/mrasm.pest", "constant_dec  =  { ( \"0\"* ~ ( ( \"2\"      ~ \"5\"      ~ '0'..'5' ) |", "constant_dec  =  { ( \"0\"* ~ ( ( \"2\"      ~ \"5\"      ~ '0'..'6' ) |", ["C03"]),
+    # (reordering ld_memory before ld_const in the grammar is an equivalent mutant: memory operands start with "(")
+    ("parse-pc-lowercase-accepted", "emulator-2a-lib/syntax/mrasm.pest", "register      =  { ( ^\"R\" ~ '0'..'3' ) | \"PC\" }", "register      =  { ( ^\"R\" ~ '0'..'3' ) | ^\"PC\" }", ["C03"]),
+    ("parse-header-two-blanks", "emulator-2a-lib/syntax/mrasm.pest", "header        =  { \"#! mrasm\" ~ ws? ~ comment? ~ (eol | EOI) }", "header        =  { \"#! mrasm\" ~ ws* ~ comment? ~ (eol | EOI) }", ["C03"]),
+    ("parse-hex-word-radix", L + "parser/implementation/mod.rs", "        Rule::word_hex => u16::from_str_radix(&inner.as_str()[2..], 16).unwrap(),", "        Rule::word_hex => u16::from_str_radix(&inner.as_str()[2..], 16).map(|w| if w == 0xBEEF { 0xBEEE } else { w }).unwrap(),", ["C03"]),
+    # ---- formatter (C16)
+    ("fmt-constant-decimal-with-0x", L + "parser/ast/format.rs", "            Constant::Constant(c) => write!(f, \"0x{:>02X}\", c),", "            Constant::Constant(c) => write!(f, \"0x{:>02}\", c),", ["C16"]),
+    ("fmt-db-no-comma", L + "parser/ast/format.rs", "                    write!(f, \"{}, \", byte)?;", "                    write!(f, \"{} \", byte)?;", ["C16"]),
+    ("fmt-header-padding-again", L + "parser/ast/format.rs", "        write!(f, \"#! mrasm\")?;\n        if let Some(comment) = &self.comment_after_shebang {\n            write!(f, \" ; {}\", comment)?;", "        write!(f, \"#! mrasm\")?;\n        if let Some(comment) = &self.comment_after_shebang {\n            write!(f, \"  ; {}\", comment)?;", ["C16"]),
+    ("fmt-st-operands-swapped", L + "parser/ast/format.rs", "            Instruction::St(mem, reg) => write!(f, \"ST {}, {}\", mem, reg),", "            Instruction::St(mem, reg) => write!(f, \"ST {}, {}\", reg, mem),", ["C16"]),
+    # ---- compile/load crash (C06)
+    ("crash-equ-zero-unwrap", L + "compiler.rs", "                self.known_labels.insert(label.to_lowercase(), constant);\n                vec![]", "                self.known_labels.insert(label.to_lowercase(), constant);\n                assert!(constant != 0xEF || self.next_addr < 100, \"equ\");\n                vec![]", ["C06"]),
+    ("crash-load-large-stack", L + "machine/mod.rs", "        if program.stacksize != Stacksize::NotSet {", "        if program.stacksize == Stacksize::_64 && program.bytes().count() > 0xB0 { panic!(\"program overlaps the stack\"); }\n        if program.stacksize != Stacksize::NotSet {", ["C06"]),
     # ---- cycles (C15)
     ("cyc-wait-also-for-io", L + "machine/raw/mod.rs", "            if *register_out_a <= 0xEF {\n                trace!(\"Generating artificial wait signal\");\n                machine.pending_wait_for_memory = Some(MemoryWait);\n            }\n        } else {\n            machine.last_bus_read = 0;", "            if *register_out_a <= 0xFB {\n                trace!(\"Generating artificial wait signal\");\n                machine.pending_wait_for_memory = Some(MemoryWait);\n            }\n        } else {\n            machine.last_bus_read = 0;", ["C15"]),
     ("cyc-no-wait-reading-0x80", L + "machine/raw/mod.rs", "            if *register_out_a <= 0xEF {\n                trace!(\"Generating artificial wait signal\");\n                machine.pending_wait_for_memory = Some(MemoryWait);\n            }\n        } else {\n            machine.last_bus_read = 0;", "            if *register_out_a <= 0xEF && *register_out_a != 0x80 {\n                trace!(\"Generating artificial wait signal\");\n                machine.pending_wait_for_memory = Some(MemoryWait);\n            }\n        } else {\n            machine.last_bus_read = 0;", ["C15"]),
